@@ -1,15 +1,61 @@
 /-
-  Properties/C16.lean — HTML report: content cannot break the markup.
+  Properties/C16.lean — HTML report: faithful source, each match once, content cannot break the markup.
 
-  Proved (all strings): `protect_html` leaves no double quote, and `<`/`>` occur exactly once
-  per line break of the input (the `<br>` the report uses for line ends) — so neither source
-  text nor messages nor suggestions can open a tag or close an attribute; escaping
-  distributes over concatenation (the report is assembled piecewise).  Region grouping,
-  overlap handling, per-line highlight spans and line numbers are checked on reports parsed
-  with `html.parser` for generated files and match sets.
+  Proved for ALL texts, position maps, match lists and contexts (no bound):
+
+  1. Escaping (all strings): `protect_html` leaves no double quote, and `<`/`>` occur exactly once
+     per line break of the input (the `<br>` the report uses for line ends) — so neither source
+     text nor messages nor suggestions can open a tag or close an attribute; escaping
+     distributes over concatenation (the report is assembled piecewise).
+
+  2. Structure of the report (`Html.generateHtml`, Model/Html.lean = `generate_html` with every
+     highlight tag abstracted to an opaque piece `hi i text`; tied to the Python function by the
+     differential test harness/corr_html.py, driver operation HTML):
+     * `C16_region_text` — the cells of a region, plain and highlighted in order, are exactly the
+       source slice `tex[starts[beglin] : starts[endlin]]` = the lines `beglin … endlin-1`; no
+       character lost, none shown twice, whatever overlaps there are (an overlapping match
+       contributes no piece).  Needs: the text ends in a line break (`EndsNl`; `proofreader.py`
+       appends one before the report is made).  NOT needed: sorted matches, a sane position map.
+       `C16_region_text_needs_final_newline` shows by evaluation that the claim fails for a text
+       without final line break (its last line has no line start behind it and is cut off after
+       the match).
+     * `C16_line_numbers` — the numbers of a region are `beglin, …, endlin-1` and the separator
+       `-1`, one per table row (rows = tagged characters of the pieces split at the line breaks,
+       as `protect_html`/`generate_highlight`/`add_line_numbers` do with `<br>\n`).
+     * `C16_rows` — cut at the line breaks the cells of a region are the source lines
+       `beglin … endlin-1` in this order plus one empty row for the separator: row `j` shows line
+       `beglin + j` beside the number `beglin + j`.  `C16_no_problems`: without a match the report
+       shows the first `context` lines, numbered from 0.
+     * `C16_each_match_once` — every index `i < len(matches)` occurs exactly once in the
+       highlights in place of all regions together with the list of overlapping messages (so:
+       in exactly one region or in the list, never both, never twice), no other index occurs;
+       `C16_highlight_text` / `C16_overlap_text` — the highlighted text is `tex[h.beg:h.end]`
+       for the data `h` the first loop computes from match `i`, an overlapping message carries the
+       line `h.lin + 1`.  `C16_no_overlaps` — matches that do not overlap (mapped spans in file
+       order, `h.end ≤ h'.beg`) are all highlighted in place: the list of overlapping messages
+       is used only for real overlaps or matches out of order.
+     * `C16_regions_ordered` — a region ends before or where the next one begins (lines), by
+       construction of the grouping; no hypothesis (in particular no sortedness: `shell.py` hands
+       over matches sorted by position, but the grouping compares every new match with the complete
+       last region).  `C16_regions_disjoint` — if the position map has no entry 0 (the filter's
+       positions are 1-based; Python would read `tex[-1]` for one) every region has
+       `beglin ≤ endlin` and any two regions are disjoint: no source line is shown twice.
+     * `C16_whole_file`, `C16_whole_file_negative` — with a context of at least as many lines as
+       the file has (what `shell.py` makes of a negative `--context`: 10^8) and at least one
+       match there is ONE region, lines `0 … N-1`, whose cells are the whole file.
+     Only results `.ok` are spoken of: the function ends in the shell's error exit (`fatal`) for an
+     offset/length outside the plain text, and raises IndexError (`crash`) if the position map
+     points behind the end of the file — both are outcomes of the model, compared with Python.
+
+  Not proved here, checked on real reports parsed with `html.parser` (harness/props/C16.py): the
+  tag a highlight becomes (title attribute with message, rule, suggestions, context; `--link`), the
+  page frame, the index of several files.
 -/
 import YalafiVerif.Proofs.Shell
+import YalafiVerif.Proofs.Html
+import YalafiVerif.Generated.Tables
 namespace Yalafi
+open Html
 
 theorem C16_protect_no_quote (s : Str) : '"' ∉ protectHtml s := protectHtml_no_quote s
 
@@ -19,5 +65,172 @@ theorem C16_protect_lt_count (s : Str) :
 
 theorem C16_protect_append (a b : Str) : protectHtml (a ++ b) = protectHtml a ++ protectHtml b :=
   protectHtml_append a b
+
+/-- (a) For a text that ends in a line break: the concatenated texts of the pieces of every region
+    are the source slice from the begin of line `beglin` to the begin of line `endlin`. -/
+theorem C16_region_text (T : Tables) (tex : Str) (charmap : List Int) (ms : List (Int × Int)) (context : Nat)
+    (rep : Report) (hnl : EndsNl tex) (hok : generateHtml T tex charmap ms context = .ok rep) :
+    ∀ r ∈ rep.regions,
+      r.text = slice tex ((getLineStarts tex).getD r.beglin 0) ((getLineStarts tex).getD r.endlin 0) :=
+  region_text T tex charmap ms context rep hnl hok
+
+/-- (b) line numbers `beglin … endlin-1`, then the separator; as many numbers as table rows -/
+theorem C16_line_numbers (T : Tables) (tex : Str) (charmap : List Int) (ms : List (Int × Int)) (context : Nat)
+    (rep : Report) (hnl : EndsNl tex) (hok : generateHtml T tex charmap ms context = .ok rep) :
+    ∀ r ∈ rep.regions,
+      r.lineNumbers = (List.range' r.beglin (r.endlin - r.beglin)).map Int.ofNat ++ [-1] ∧
+      r.rows.length = r.lineNumbers.length :=
+  region_line_numbers T tex charmap ms context rep hnl hok
+
+/-- (b') the rows of a region show the source lines `beglin … endlin-1` in this order (each without its
+    line break), then one empty row — the separator that carries the number `-1` -/
+theorem C16_rows (T : Tables) (tex : Str) (charmap : List Int) (ms : List (Int × Int)) (context : Nat)
+    (rep : Report) (hnl : EndsNl tex) (hok : generateHtml T tex charmap ms context = .ok rep) :
+    ∀ r ∈ rep.regions,
+      r.rowTexts = (List.range' r.beglin (r.endlin - r.beglin)).map (Html.lineOf tex) ++ [[]] :=
+  region_rows T tex charmap ms context rep hnl hok
+
+/-- no match: the first `context` lines, numbered from 0, one row per line (any text) -/
+theorem C16_no_problems (T : Tables) (tex : Str) (charmap : List Int) (context : Nat) :
+    ∃ txt, generateHtml T tex charmap [] context
+        = .ok (Report.mk [] [] (some (txt, (List.range (min context (tex.count '\n'))).map Int.ofNat))) ∧
+      firstRows txt = (List.range (min context (tex.count '\n'))).map (Html.lineOf tex) :=
+  no_problems T tex charmap context
+
+/-- (c) every match exactly once, in place or in the list of overlapping messages -/
+theorem C16_each_match_once (T : Tables) (tex : Str) (charmap : List Int) (ms : List (Int × Int)) (context : Nat)
+    (rep : Report) (hok : generateHtml T tex charmap ms context = .ok rep) (i : Nat) :
+    (rep.hiIdx ++ rep.ovIdx).count i = if i < ms.length then 1 else 0 :=
+  each_match_once T tex charmap ms context rep hok i
+
+/-- (c) the highlighted text is the source span of the match -/
+theorem C16_highlight_text (T : Tables) (tex : Str) (charmap : List Int) (ms : List (Int × Int)) (context : Nat)
+    (rep : Report) (hok : generateHtml T tex charmap ms context = .ok rep) :
+    ∀ r ∈ rep.regions, ∀ i s, Piece.hi i s ∈ r.pieces →
+      ∃ m h, ms[i]? = some m ∧ computeH T tex charmap i m.1 m.2 = .ok h ∧ 0 ≤ h.beg ∧
+        s = slice tex h.beg.toNat h.fin :=
+  hi_text T tex charmap ms context rep hok
+
+theorem C16_overlap_text (T : Tables) (tex : Str) (charmap : List Int) (ms : List (Int × Int)) (context : Nat)
+    (rep : Report) (hok : generateHtml T tex charmap ms context = .ok rep) :
+    ∀ o ∈ rep.overlaps,
+      ∃ m h, ms[o.idx]? = some m ∧ computeH T tex charmap o.idx m.1 m.2 = .ok h ∧
+        o.lin = h.lin + 1 ∧ o.text = sliceI tex h.beg h.fin :=
+  overlap_text T tex charmap ms context rep hok
+
+/-- (c') matches that follow each other in the file without overlapping (`h.end ≤ h'.beg` for the mapped
+    data of consecutive matches; map without entry 0) are all highlighted in place, in the order
+    of the matches; the list of overlapping messages is empty -/
+theorem C16_no_overlaps (T : Tables) (tex : Str) (charmap : List Int) (ms : List (Int × Int)) (context : Nat)
+    (rep : Report) (hcm : ∀ c ∈ charmap, c ≠ 0) (hok : generateHtml T tex charmap ms context = .ok rep)
+    (hd : Html.Disjoint rep.hdata) :
+    rep.overlaps = [] ∧ rep.hiIdx = List.range ms.length :=
+  no_overlaps T tex charmap ms context rep hcm hok hd
+
+/-- (d) the regions follow each other without overlapping in lines -/
+theorem C16_regions_ordered (T : Tables) (tex : Str) (charmap : List Int) (ms : List (Int × Int)) (context : Nat)
+    (rep : Report) (hok : generateHtml T tex charmap ms context = .ok rep) (k : Nat)
+    (hk : k + 1 < rep.regions.length) :
+    rep.regions[k].endlin ≤ rep.regions[k + 1].beglin :=
+  regions_ordered T tex charmap ms context rep hok k hk
+
+/-- (d') for a position map without the entry 0 (positions are 1-based) every region begins in front
+    of its end and ANY two regions are disjoint in lines: no source line is shown twice -/
+theorem C16_regions_disjoint (T : Tables) (tex : Str) (charmap : List Int) (ms : List (Int × Int)) (context : Nat)
+    (rep : Report) (hcm : ∀ c ∈ charmap, c ≠ 0) (hok : generateHtml T tex charmap ms context = .ok rep) :
+    (∀ r ∈ rep.regions, r.beglin ≤ r.endlin) ∧
+    rep.regions.Pairwise (fun r r' => r.endlin ≤ r'.beglin) :=
+  regions_disjoint T tex charmap ms context rep hcm hok
+
+/-- (e) a context of at least the number of lines of the file: one region = the whole file -/
+theorem C16_whole_file (T : Tables) (tex : Str) (charmap : List Int) (ms : List (Int × Int)) (context : Nat)
+    (rep : Report) (hnl : EndsNl tex) (hctx : tex.count '\n' ≤ context) (hms : ms ≠ [])
+    (hok : generateHtml T tex charmap ms context = .ok rep) :
+    ∃ r, rep.regions = [r] ∧ r.beglin = 0 ∧ r.endlin = tex.count '\n' ∧ r.text = tex ∧
+      r.lineNumbers = (List.range (tex.count '\n')).map Int.ofNat ++ [-1] ∧ rep.first = none :=
+  whole_file T tex charmap ms context rep hnl hctx hms hok
+
+/-- (e) `--context -1` as `shell.py` normalises it, for files of at most 10^8 lines -/
+theorem C16_whole_file_negative (T : Tables) (tex : Str) (charmap : List Int) (ms : List (Int × Int)) (c : Int)
+    (rep : Report) (hc : c < 0) (hnl : EndsNl tex) (hsize : tex.count '\n' ≤ 100000000) (hms : ms ≠ [])
+    (hok : generateHtml T tex charmap ms (normContext c) = .ok rep) :
+    ∃ r, rep.regions = [r] ∧ r.beglin = 0 ∧ r.endlin = tex.count '\n' ∧ r.text = tex ∧
+      r.lineNumbers = (List.range (tex.count '\n')).map Int.ofNat ++ [-1] ∧ rep.first = none :=
+  whole_file_negative T tex charmap ms c rep hc hnl hsize hms hok
+
+/-! ### non-vacuity on the real tables: a file of four lines, three matches, the second overlaps the first -/
+
+namespace C16ex
+def T : Tables := Generated.theTables.toTables
+def tex : Str := "ab \\emph{x}\ncd <e>\n\nlast \"line\"\n".toList
+/-- the identity map `1 … len`, padded as the shell pads a part -/
+def charmap : List Int := (List.range (tex.length + 2)).map (fun i => ((min (i + 1) tex.length : Nat) : Int))
+def ms : List (Int × Int) := [(0, 2), (1, 4), (20, 4)]
+
+def report0 : Report :=
+  { hdata := [{ idx := 0, unsure := false, beg := 0, fin := 2, beglin := 0, endlin := 1, lin := 0 },
+              { idx := 1, unsure := false, beg := 1, fin := 5, beglin := 0, endlin := 1, lin := 0 },
+              { idx := 2, unsure := false, beg := 20, fin := 24, beglin := 3, endlin := 4, lin := 3 }],
+    regions := [{ beglin := 0, endlin := 1,
+                  pieces := [.plain [], .hi 0 "ab".toList, .plain " \\emph{x}\n".toList],
+                  lineNumbers := [0, -1],
+                  overlaps := [{ idx := 1, lin := 1, text := "b \\e".toList }] },
+                { beglin := 3, endlin := 4,
+                  pieces := [.plain [], .hi 2 "last".toList, .plain " \"line\"\n".toList],
+                  lineNumbers := [3, -1],
+                  overlaps := [] }],
+    first := none }
+
+theorem ends : EndsNl tex := by decide
+/-- context 0: two regions, match 1 in the list of overlapping messages -/
+theorem run0 : generateHtml T tex charmap ms 0 = .ok report0 := by decide +kernel
+
+example : report0.hiIdx = [0, 2] ∧ report0.ovIdx = [1] := by decide
+example : (report0.regions.map Region.text) = ["ab \\emph{x}\n".toList, "last \"line\"\n".toList] := by decide
+example : (report0.regions.map (fun r => r.rows.length)) = [2, 2] := by decide
+example : (report0.regions.map Region.rowTexts) = [["ab \\emph{x}".toList, []], ["last \"line\"".toList, []]] := by decide
+example : Html.lineOf tex 3 = "last \"line\"".toList ∧ Html.lineOf tex 2 = [] := by decide
+
+/-- the theorems apply to it -/
+example : ∀ i, (report0.hiIdx ++ report0.ovIdx).count i = if i < 3 then 1 else 0 :=
+  fun i => C16_each_match_once T tex charmap ms 0 report0 run0 i
+example := C16_region_text T tex charmap ms 0 report0 ends run0
+example := C16_line_numbers T tex charmap ms 0 report0 ends run0
+
+/-- `C16_no_overlaps` is not vacuous: report0 has the two disjoint matches 0 and 2 … -/
+example : Html.Disjoint [report0.hdata[0], report0.hdata[2]] := ⟨by decide, trivial⟩
+/-- … and match 1 overlaps match 0 -/
+example : ¬ Html.Disjoint report0.hdata := fun h => absurd h.1 (by decide)
+example : (generateHtml T tex charmap [(0, 2), (20, 4)] 0).bind (fun r => .ok (r.hiIdx, r.ovIdx, r.regions.length))
+    = .ok ([0, 1], [], 2) := by decide +kernel
+
+/-- negative context: one region with all four lines -/
+theorem runNeg : (generateHtml T tex charmap ms (normContext (-1))).bind
+      (fun r => .ok (r.regions.map (fun g => (g.beglin, g.endlin, g.lineNumbers, decide (g.text = tex)))))
+    = .ok [(0, 4, [0, 1, 2, 3, -1], true)] := by decide +kernel
+
+/-- unsure positions (negative map entries): one character, extended to the end of the word
+    for a letter (`last`), a single character otherwise -/
+example : (generateHtml T tex (charmap.map (fun x => -x)) ms 0).bind
+      (fun r => .ok (r.hdata.map (fun h => (h.unsure, h.beg, h.fin))))
+    = .ok [(true, 0, 2), (true, 1, 2), (true, 20, 24)] := by decide +kernel
+
+/-- offsets outside the plain text: the shell's error exit; a map that points behind the file: IndexError -/
+example : generateHtml T tex charmap [(40, 1)] 0 = .fatal := by decide +kernel
+example : generateHtml T tex [99, 99, 99] [(0, 1)] 0 = .crash "genhtml.py:generate_html" := by decide +kernel
+end C16ex
+
+/-- `C16_region_text` needs the final line break: in `a⏎bc` with a match on `b` the region shows `b`
+    alone — the slice of its lines is empty (there is no line start behind the last line), the `c`
+    is not shown at all.  (`proofreader.py` never hands over such a text.) -/
+theorem C16_region_text_needs_final_newline :
+    ¬ EndsNl "a\nbc".toList ∧
+    (generateHtml C16ex.T "a\nbc".toList [1, 2, 3, 4, 4, 4] [(2, 1)] 0).bind
+      (fun r => .ok (r.regions.map (fun g => (g.text, slice "a\nbc".toList
+          ((getLineStarts "a\nbc".toList).getD g.beglin 0) ((getLineStarts "a\nbc".toList).getD g.endlin 0)))))
+      = .ok [("b".toList, [])] := by
+  constructor
+  · decide
+  · decide +kernel
 
 end Yalafi
